@@ -28,13 +28,14 @@
 EXTENDS JsonVal, Query
 
 MaxOut == 200          \* longer outcome sequences are outside the model
-S(s) == JStr(s)
 
 (******************************* flowing state *****************************)
 (* v value; id identity of the value when it is physically a part of the root of the current path(f) (frame f, path p); *)
-(* P, W: path so far and the value there; pm: path mode; f: frame; ins: unread inputs; side: debug/stderr records       *)
+(* P, W: path so far and the value there; pm: path mode; f: frame; ins: unread inputs; side: debug/stderr records;      *)
+(* alt: produced under a non-final `?//` alternative, whose generator is still live: an error raised downstream goes    *)
+(* back into it and tries the next pattern (the engine backtracks), which a sequence semantics cannot express           *)
 NoId == [f |-> 0, p |-> <<>>]
-St0(v, ins) == [v |-> v, id |-> NoId, P |-> <<>>, W |-> JNull, pm |-> FALSE, f |-> 0, ins |-> ins, side |-> <<>>]
+St0(v, ins) == [v |-> v, id |-> NoId, P |-> <<>>, W |-> JNull, pm |-> FALSE, f |-> 0, ins |-> ins, side |-> <<>>, alt |-> FALSE]
 Fresh(st, v) == [st EXCEPT !.v = v, !.id = NoId]
 NP(st) == [st EXCEPT !.pm = FALSE, !.id = NoId]                 \* sub-expression evaluated outside path tracking
 Back(st, s) == [st EXCEPT !.ins = s.ins, !.side = s.side]       \* keep st's path context, take the effects of s
@@ -57,12 +58,17 @@ HasOpaque(v) == CASE v.t = "opaque" -> TRUE
 
 (* sequencing: run Op on every value outcome, threading effects; stop at the first non-value *)
 FlatMap(os, st, Op(_)) ==
-    LET RECURSIVE G(_, _)
+    LET genEff == \E i \in 1 .. Len(os) : os[i].s.ins # os[1].s.ins \/ os[i].s.side # os[1].s.side
+        RECURSIVE G(_, _)
         G(i, eff) == IF i > Len(os) THEN <<>>
                      ELSE IF ~IsV(os[i]) THEN <<os[i]>>
                      ELSE LET r == Op(Back(os[i].s, eff))
                               eff2 == LastSt(r, eff) IN
-                          IF Ended(r) THEN r
+                          IF genEff /\ (eff2.ins # eff.ins \/ eff2.side # eff.side)
+                          THEN <<Unm(eff2, "effects of a generator interleave with effects downstream")>>
+                          ELSE IF os[i].s.alt /\ Ended(r) /\ r[Len(r)].k = "e"
+                          THEN <<Unm(eff2, "error downstream of a live destructuring alternative")>>
+                          ELSE IF Ended(r) THEN r
                           ELSE IF Len(r) > MaxOut THEN Append(r, Unm(eff2, "too many outputs"))
                           ELSE LET rest == G(i + 1, eff2) IN r \o rest
     IN G(1, LastSt(os, st))
@@ -82,8 +88,8 @@ LookupLabel(env, n) == LET is == {i \in 1 .. Len(env.labels) : env.labels[i].n =
                        IF is = {} THEN 0 ELSE env.labels[CHOOSE i \in is : \A j \in is : j <= i].id
 BindVar(env, n, v, id) == [env EXCEPT !.vars = Append(@, [n |-> n, v |-> v, id |-> id])]
 (* literal tables: lit.str maps the string literals / field names of the program to code points, lit.num number literals to integers *)
-HasStrLit(env, s) == s = "" \/ s \in DOMAIN env.lit.str
-StrLit(env, s) == IF s = "" THEN <<>> ELSE env.lit.str[s]
+HasStrLit(env, s) == s = "" \/ s \in DOMAIN env.lit.str \/ s \in {"array", "object", "string", "number", "boolean", "break", "limit doesn't support negative count"}
+HasNumLit(env, s) == s \in DOMAIN env.lit.num \/ s \in {"0", "1"}
 StrOfRec(env, r) == IF HasF(r, "str") THEN r.str ELSE ""
 (* `$name` parameter: the variable name is the parameter name itself; the function name would be it without `$` (not callable here) *)
 IsVarName(n) == n \in {"$a", "$b", "$c", "$x", "$y", "$z", "$v", "$n", "$item", "$end", "$start", "$step", "$__loc__", "$in", "$re", "$flags", "$i", "$k", "$p", "$q"}
@@ -107,7 +113,7 @@ JoinCps(parts, sep) == IF parts = <<>> THEN <<>> ELSE IF Len(parts) = 1 THEN par
 QuoteOK(cps) == \A i \in 1 .. Len(cps) : PlainChar(cps[i])
 Quote(cps) == <<34>> \o cps \o <<34>>
 JsonTextOK(v) == LET RECURSIVE OK(_)
-                     OK(x) == CASE x.t = "str" -> QuoteOK(x.v)
+                     OK(x) == CASE x.t = "str" -> QuoteOK(x.s)
                                 [] x.t = "arr" -> \A i \in 1 .. Len(x.v) : OK(x.v[i])
                                 [] x.t = "obj" -> (\A i \in 1 .. Len(x.v) : OK(x.v[i])) /\ (\A i \in 1 .. Len(x.k) : QuoteOK(x.k[i]))
                                 [] x.t \in {"big", "opaque"} -> FALSE
@@ -116,8 +122,8 @@ JsonTextOK(v) == LET RECURSIVE OK(_)
 JsonText(v) == CASE v.t = "null" -> <<110, 117, 108, 108>>
                  [] v.t = "true" -> <<116, 114, 117, 101>>
                  [] v.t = "false" -> <<102, 97, 108, 115, 101>>
-                 [] v.t = "num" -> NumText(v.v)
-                 [] v.t = "str" -> Quote(v.v)
+                 [] v.t = "num" -> NumText(v.n)
+                 [] v.t = "str" -> Quote(v.s)
                  [] v.t = "arr" -> <<91>> \o JoinCps([i \in 1 .. Len(v.v) |-> JsonText(v.v[i])], <<44>>) \o <<93>>
                  [] v.t = "obj" -> <<123>> \o JoinCps([i \in 1 .. Len(v.k) |-> Quote(v.k[i]) \o <<58>> \o JsonText(v.v[i])], <<44>>) \o <<125>>
 
@@ -158,7 +164,7 @@ PObject(s0, acc, first) ==
          ELSE LET c == SkipWs(k.rest) IN
               IF c = <<>> \/ Head(c) # 58 THEN PBad
               ELSE LET e == PValue(Tail(c)) IN IF ~e.ok THEN e
-                   ELSE LET r == SkipWs(e.rest) acc2 == Append(acc, <<k.v.v, e.v>>) IN
+                   ELSE LET r == SkipWs(e.rest) acc2 == Append(acc, <<k.v.s, e.v>>) IN
                         IF r # <<>> /\ Head(r) = 44 THEN PObject(Tail(r), acc2, FALSE)
                         ELSE IF r # <<>> /\ Head(r) = 125 THEN [ok |-> TRUE, v |-> ObjFromPairs(acc2), rest |-> Tail(r)]
                         ELSE PBad
@@ -170,7 +176,692 @@ PValue(s0) == LET s == SkipWs(s0) IN
            [] Head(s) = 34 -> PString(Tail(s), <<>>)
            [] Head(s) = 91 -> PArray(Tail(s), <<>>)
            [] Head(s) = 123 -> PObject(Tail(s), <<>>, TRUE)
-           [] Head(s) = 45 /\ Len(s) > 1 /\ IsDigit(s[2]) -> LET n == PNumber0(Tail(s)) IN IF n.ok THEN [n EXCEPT !.v = JNum(-n.v.v)] ELSE n
+           [] Head(s) = 45 /\ Len(s) > 1 /\ IsDigit(s[2]) -> LET n == PNumber0(Tail(s)) IN IF n.ok THEN [n EXCEPT !.v = JNum(-n.v.n)] ELSE n
            [] IsDigit(Head(s)) -> PNumber0(s)
            [] Head(s) \in {78, 110, 73, 105} -> PUnknown                  \* nan / NaN / Infinity spellings
            [] OTHER -> PBad
+
+(************************ natives: value -> value | Err | Unk ***************)
+NFromJson(v) == IF v.t # "str" THEN Err
+                ELSE LET r == PValue(v.s) IN
+                     IF r.rest = <<0>> THEN Unk("fromjson text outside the model")
+                     ELSE IF r.ok /\ SkipWs(r.rest) = <<>> THEN r.v ELSE Err
+NToJson(v) == IF JsonTextOK(v) THEN JStr(JsonText(v)) ELSE Unk("tojson text outside the model")
+NToString(v) == IF v.t = "str" THEN v ELSE NToJson(v)
+NLength(v) == CASE v.t = "null" -> JNum(0) [] v.t = "num" -> JNum(AbsI(v.n)) [] v.t = "str" -> JNum(Len(v.s)) [] v.t = "arr" -> JNum(Len(v.v))
+                [] v.t = "obj" -> JNum(Len(v.k)) [] OTHER -> Err
+NKeys(v) == CASE v.t = "arr" -> JArr([i \in 1 .. Len(v.v) |-> JNum(i - 1)])
+              [] v.t = "obj" -> JArr([i \in 1 .. Len(v.k) |-> JStr(v.k[i])]) [] OTHER -> Err
+NHas(v, x) == CASE v.t = "arr" /\ x.t = "num" -> JBool(0 <= x.n /\ x.n < Len(v.v))
+                [] v.t = "obj" /\ x.t = "str" -> JBool(ObjHas(v, x.s))
+                [] v.t = "null" -> JFalse [] OTHER -> Err
+ValuesOf(v) == IF v.t \in {"arr", "obj"} THEN v.v ELSE <<>>
+Entry(k, x) == JObjRaw(<<Cps(<<107, 101, 121>>), Cps(<<118, 97, 108, 117, 101>>)>>, <<k, x>>)        \* {"key":k,"value":x}
+NToEntries(v) == CASE v.t = "arr" -> JArr([i \in 1 .. Len(v.v) |-> Entry(JNum(i - 1), v.v[i])])
+                   [] v.t = "obj" -> JArr([i \in 1 .. Len(v.k) |-> Entry(JStr(v.k[i]), v.v[i])]) [] OTHER -> Err
+K_key == <<107, 101, 121>>  K_Key == <<75, 101, 121>>  K_name == <<110, 97, 109, 101>>  K_Name == <<78, 97, 109, 101>>
+K_value == <<118, 97, 108, 117, 101>>  K_Value == <<86, 97, 108, 117, 101>>
+NFromEntries(v) ==
+    IF v.t # "arr" THEN Err
+    ELSE LET keyOf(o) == LET c == <<ObjGet(o, K_key), ObjGet(o, K_Key), ObjGet(o, K_name), ObjGet(o, K_Name)>>
+                             is == {i \in 1 .. 4 : Truthy(c[i])} IN
+                         IF is = {} THEN Err ELSE c[CHOOSE i \in is : \A j \in is : i <= j]
+             valOf(o) == IF ObjHas(o, K_value) THEN ObjGet(o, K_value) ELSE ObjGet(o, K_Value)
+             bad == \E i \in 1 .. Len(v.v) : v.v[i].t # "obj" \/ IsErr(keyOf(v.v[i])) \/ keyOf(v.v[i]).t # "str"
+         IN IF bad THEN Err ELSE ObjFromPairs([i \in 1 .. Len(v.v) |-> <<keyOf(v.v[i]).s, valOf(v.v[i])>>])
+RECURSIVE MergeObj(_, _, _), DeepMerge(_, _), RemoveAll(_, _), Repeat(_, _)
+MergeObj(a, b, i) == IF i > Len(b.k) THEN a ELSE MergeObj(ObjSet(a, b.k[i], b.v[i]), b, i + 1)
+DeepMerge(a, b) == LET RECURSIVE G(_, _)
+                       G(acc, i) == IF i > Len(b.k) THEN acc
+                                    ELSE LET old == ObjGet(acc, b.k[i]) IN
+                                         G(ObjSet(acc, b.k[i], IF ObjHas(acc, b.k[i]) /\ old.t = "obj" /\ b.v[i].t = "obj" THEN DeepMerge(old, b.v[i]) ELSE b.v[i]), i + 1)
+                   IN G(a, 1)
+RemoveAll(xs, ys) == SelectSeq(xs, LAMBDA x : \A j \in 1 .. Len(ys) : CmpJ(x, ys[j]) # 0)
+Repeat(s, n) == IF n <= 0 THEN <<>> ELSE s \o Repeat(s, n - 1)
+(* split on a separator (Go strings.Split): "" separator explodes into characters *)
+RECURSIVE SplitCps(_, _, _)
+SplitCps(s, sep, cur) == IF s = <<>> THEN <<cur>>
+                         ELSE IF StartsWith(s, sep) THEN <<cur>> \o SplitCps(Drop(s, Len(sep)), sep, <<>>)
+                         ELSE SplitCps(Tail(s), sep, Append(cur, Head(s)))
+NSplit(v, x) == IF v.t # "str" \/ x.t # "str" THEN Err
+                ELSE IF x.s = <<>> THEN JArr([i \in 1 .. Len(v.s) |-> JStr(<<v.s[i]>>)])
+                ELSE JArr(LET p == SplitCps(v.s, x.s, <<>>) IN [i \in 1 .. Len(p) |-> JStr(p[i])])
+TruncMod(a, b) == LET m == AbsI(a) % AbsI(b) IN IF a < 0 THEN -m ELSE m
+Arith(op, l, r) ==
+    CASE op = "+" -> CASE l.t = "null" -> r [] r.t = "null" -> l
+                       [] l.t = "num" /\ r.t = "num" -> JNum(l.n + r.n)
+                       [] l.t = "str" /\ r.t = "str" -> JStr(l.s \o r.s)
+                       [] l.t = "arr" /\ r.t = "arr" -> JArr(l.v \o r.v)
+                       [] l.t = "obj" /\ r.t = "obj" -> MergeObj(l, r, 1)
+                       [] OTHER -> Err
+      [] op = "-" -> CASE l.t = "num" /\ r.t = "num" -> JNum(l.n - r.n)
+                       [] l.t = "arr" /\ r.t = "arr" -> JArr(RemoveAll(l.v, r.v))
+                       [] OTHER -> Err
+      [] op = "*" -> CASE l.t = "num" /\ r.t = "num" -> JNum(l.n * r.n)
+                       [] l.t = "str" /\ r.t = "num" -> IF r.n > 0 THEN JStr(Repeat(l.s, r.n)) ELSE JNull
+                       [] l.t = "num" /\ r.t = "str" -> IF l.n > 0 THEN JStr(Repeat(r.s, l.n)) ELSE JNull
+                       [] l.t = "obj" /\ r.t = "obj" -> DeepMerge(l, r)
+                       [] OTHER -> Err
+      [] op = "/" -> CASE l.t = "num" /\ r.t = "num" -> IF r.n = 0 THEN Err
+                                                       ELSE IF TruncMod(l.n, r.n) = 0 THEN JNum((IF (l.n < 0) = (r.n < 0) THEN 1 ELSE -1) * (AbsI(l.n) \div AbsI(r.n)))
+                                                       ELSE Unk("fraction")
+                       [] l.t = "str" /\ r.t = "str" -> NSplit(l, r)
+                       [] OTHER -> Err
+      [] op = "%" -> CASE l.t = "num" /\ r.t = "num" -> IF r.n = 0 THEN Err ELSE JNum(TruncMod(l.n, r.n))
+                       [] OTHER -> Err
+      [] op = "==" -> JBool(CmpJ(l, r) = 0)
+      [] op = "!=" -> JBool(CmpJ(l, r) # 0)
+      [] op = "<" -> JBool(CmpJ(l, r) < 0)
+      [] op = "<=" -> JBool(CmpJ(l, r) <= 0)
+      [] op = ">" -> JBool(CmpJ(l, r) > 0)
+      [] op = ">=" -> JBool(CmpJ(l, r) >= 0)
+RECURSIVE FoldAdd(_, _, _)
+FoldAdd(acc, xs, i) == IF i > Len(xs) \/ IsErr(acc) THEN acc ELSE FoldAdd(Arith("+", acc, xs[i]), xs, i + 1)
+NAdd(v) == IF v.t \notin {"arr", "obj"} THEN Err ELSE FoldAdd(JNull, v.v, 1)
+NExplode(v) == IF v.t # "str" THEN Err ELSE JArr([i \in 1 .. Len(v.s) |-> JNum(v.s[i])])
+NImplode(v) == IF v.t # "arr" \/ \E i \in 1 .. Len(v.v) : v.v[i].t # "num" THEN Err
+               ELSE IF \E i \in 1 .. Len(v.v) : v.v[i].n < 0 \/ v.v[i].n > 55295 THEN Unk("implode code point")
+               ELSE JStr([i \in 1 .. Len(v.v) |-> v.v[i].n])
+NTrim(v, x, left) == IF v.t # "str" \/ x.t # "str" THEN Err
+                     ELSE IF left THEN (IF StartsWith(v.s, x.s) THEN JStr(Drop(v.s, Len(x.s))) ELSE v)
+                     ELSE (IF Len(v.s) >= Len(x.s) /\ SubSeq(v.s, Len(v.s) - Len(x.s) + 1, Len(v.s)) = x.s THEN JStr(SubSeq(v.s, 1, Len(v.s) - Len(x.s))) ELSE v)
+NStarts(v, x, left) == IF v.t # "str" \/ x.t # "str" THEN Err
+                       ELSE IF left THEN JBool(StartsWith(v.s, x.s))
+                       ELSE JBool(Len(v.s) >= Len(x.s) /\ SubSeq(v.s, Len(v.s) - Len(x.s) + 1, Len(v.s)) = x.s)
+NJoin(v, x) == IF v.t \notin {"arr", "obj"} THEN Err
+               ELSE IF v.v = <<>> THEN JStr(<<>>)
+               ELSE IF Len(v.v) > 1 /\ x.t # "str" THEN Err
+               ELSE IF \E i \in 1 .. Len(v.v) : v.v[i].t \in {"arr", "obj"} THEN Err
+               ELSE JStr(JoinCps([i \in 1 .. Len(v.v) |-> CASE v.v[i].t = "null" -> <<>> [] v.v[i].t = "str" -> v.v[i].s [] OTHER -> JsonText(v.v[i])],
+                                 IF x.t = "str" THEN x.s ELSE <<>>))
+RECURSIVE UniqSorted(_)
+UniqSorted(xs) == IF Len(xs) <= 1 THEN xs
+                  ELSE IF CmpJ(xs[1], xs[2]) = 0 THEN UniqSorted(Tail(xs)) ELSE <<xs[1]>> \o UniqSorted(Tail(xs))
+NSort(v) == IF v.t # "arr" THEN Err ELSE JArr(SortJ(v.v))
+NUnique(v) == IF v.t # "arr" THEN Err ELSE LET s == SortJ(v.v) IN
+              JArr(LET RECURSIVE U(_) U(i) == IF i > Len(s) THEN <<>> ELSE IF i > 1 /\ CmpJ(s[i - 1], s[i]) = 0 THEN U(i + 1) ELSE <<s[i]>> \o U(i + 1) IN U(1))
+MinMaxIdx(ks, isMin) == LET RECURSIVE G(_, _) G(i, j) == IF i > Len(ks) THEN j ELSE G(i + 1, IF (CmpJ(ks[j], ks[i]) > 0) = isMin THEN i ELSE j) IN G(2, 1)
+NMinMaxBy(v, x, isMin) == IF v.t # "arr" \/ x.t # "arr" \/ Len(v.v) # Len(x.v) THEN Err
+                          ELSE IF v.v = <<>> THEN JNull ELSE v.v[MinMaxIdx(x.v, isMin)]
+NSortBy(v, x) == IF v.t # "arr" \/ x.t # "arr" \/ Len(v.v) # Len(x.v) THEN Err ELSE JArr(SortByKeys(x.v, v.v))
+(* groups of equal keys, in key order, members in input order *)
+NGroupBy(v, x, uniq) ==
+    IF v.t # "arr" \/ x.t # "arr" \/ Len(v.v) # Len(x.v) THEN Err
+    ELSE LET p == SortPairs(x.v, v.v)
+             RECURSIVE G(_, _)
+             G(i, cur) == IF i > Len(p) THEN (IF cur = <<>> THEN <<>> ELSE <<cur>>)
+                          ELSE IF cur # <<>> /\ CmpJ(p[i - 1][1], p[i][1]) = 0 THEN G(i + 1, Append(cur, p[i][2]))
+                          ELSE (IF cur = <<>> THEN <<>> ELSE <<cur>>) \o G(i + 1, <<p[i][2]>>)
+             gs == G(1, <<>>)
+         IN JArr([i \in 1 .. Len(gs) |-> IF uniq THEN gs[i][1] ELSE JArr(gs[i])])
+NReverse(v) == IF v.t # "arr" THEN Err ELSE JArr([i \in 1 .. Len(v.v) |-> v.v[Len(v.v) + 1 - i]])
+(* indexing (the engine's _index / _slice): key may be a number, string, slice object; value null, array, string, object *)
+Clamp(i, lo, hi) == LET j == IF i < 0 THEN i + hi ELSE i IN IF j < lo THEN lo ELSE IF j < hi THEN j ELSE hi
+K_start == <<115, 116, 97, 114, 116>>  K_end == <<101, 110, 100>>
+NSlice(v, e, s) ==
+    CASE v.t = "null" -> JNull
+      [] v.t \in {"arr", "str"} ->
+            IF (s.t \notin {"null", "num"}) \/ (e.t \notin {"null", "num"}) THEN Err
+            ELSE LET pl == IF v.t = "str" THEN v.s ELSE v.v
+                     n == Len(pl)
+                     a == IF s.t = "null" THEN 0 ELSE Clamp(s.n, 0, n)
+                     b == IF e.t = "null" THEN n ELSE Clamp(e.n, a, n)
+                 IN IF v.t = "str" THEN JStr(SubSeq(pl, a + 1, b)) ELSE JArr(SubSeq(pl, a + 1, b))
+      [] OTHER -> Err
+NIndex(v, x) ==
+    CASE x.t = "str" -> CASE v.t = "null" -> JNull [] v.t = "obj" -> ObjGet(v, x.s) [] OTHER -> Err
+      [] x.t = "num" -> CASE v.t = "null" -> JNull
+                          [] v.t = "arr" -> LET i == Clamp(x.n, -1, Len(v.v)) IN IF 0 <= i /\ i < Len(v.v) THEN v.v[i + 1] ELSE JNull
+                          [] v.t = "str" -> LET i == Clamp(x.n, -1, Len(v.s)) IN IF 0 <= i /\ i < Len(v.s) THEN JStr(<<v.s[i + 1]>>) ELSE JNull
+                          [] OTHER -> Err
+      [] x.t = "arr" -> CASE v.t = "null" -> JNull
+                          [] v.t = "arr" -> IF x.v = <<>> THEN JArr(<<>>)
+                                            ELSE JArr(LET is == {i \in 0 .. (Len(v.v) - Len(x.v)) : CmpSeqJ(SubSeq(v.v, i + 1, i + Len(x.v)), x.v) = 0}
+                                                          RECURSIVE L(_) L(ss) == IF ss = {} THEN <<>> ELSE LET m == CHOOSE a \in ss : \A b \in ss : a <= b IN <<JNum(m)>> \o L(ss \ {m})
+                                                      IN L(is))
+                          [] OTHER -> Err
+      [] x.t = "obj" -> IF v.t = "null" THEN JNull
+                        ELSE IF ~ObjHas(x, K_start) \/ ~ObjHas(x, K_end) THEN Err
+                        ELSE NSlice(v, ObjGet(x, K_end), ObjGet(x, K_start))
+      [] OTHER -> Err
+RECURSIVE NGetpath(_, _, _)
+NGetpath(v, p, i) == IF i > Len(p) THEN v
+                     ELSE IF v.t \notin {"null", "arr", "obj"} THEN Err
+                     ELSE LET w == NIndex(v, p[i]) IN IF IsErr(w) THEN Err ELSE NGetpath(w, p, i + 1)
+
+(**************** library functions the engine defines in jq ****************)
+F0(n) == FuncQ(n, <<>>)
+F1(n, a) == FuncQ(n, <<a>>)
+F2(n, a, b) == FuncQ(n, <<a, b>>)
+IterAll == AddSuffix(Ident, SIter)
+IterOptQ == AddSuffix(AddSuffix(Ident, SIter), SOpt)
+EmptyQ == F0("empty")
+BinQ(op, l, r) == Bin(op, l, r)
+SelfRec(name, body) == DefQ(FDef(name, <<>>, body), F0(name))          \* def name: body; name
+Lib == <<
+  FDef("not", <<>>, IfQ(Ident, FalseQ, TrueQ)),
+  FDef("in", <<"xs">>, BindQ(Ident, <<PVar("$x")>>, Pipe(F0("xs"), F1("has", VarQ("$x"))))),
+  FDef("map", <<"f">>, ArrQ(Pipe(IterAll, F0("f")))),
+  FDef("with_entries", <<"f">>, Pipe(F0("to_entries"), Pipe(F1("map", F0("f")), F0("from_entries")))),
+  FDef("select", <<"f">>, IfQ(F0("f"), Ident, EmptyQ)),
+  FDef("recurse", <<>>, F1("recurse", IterOptQ)),
+  FDef("recurse", <<"f">>, SelfRec("r", Comma(Ident, Paren(Pipe(F0("f"), F0("r")))))),
+  FDef("recurse", <<"f", "cond">>, SelfRec("r", Comma(Ident, Paren(Pipe(F0("f"), Pipe(F1("select", F0("cond")), F0("r"))))))),
+  FDef("while", <<"cond", "update">>, SelfRec("_while", IfQ(F0("cond"), Comma(Ident, Paren(Pipe(F0("update"), F0("_while")))), EmptyQ))),
+  FDef("until", <<"cond", "next">>, SelfRec("_until", IfQ(F0("cond"), Ident, Pipe(F0("next"), F0("_until"))))),
+  FDef("repeat", <<"f">>, SelfRec("_repeat", Comma(F0("f"), F0("_repeat")))),
+  FDef("range", <<"$end">>, FuncQ("_range", <<NumQ("0"), VarQ("$end"), NumQ("1")>>)),
+  FDef("range", <<"$start", "$end">>, FuncQ("_range", <<VarQ("$start"), VarQ("$end"), NumQ("1")>>)),
+  FDef("range", <<"$start", "$end", "$step">>, FuncQ("_range", <<VarQ("$start"), VarQ("$end"), VarQ("$step")>>)),
+  FDef("add", <<"f">>, Pipe(ArrQ(F0("f")), F0("add"))),
+  FDef("min_by", <<"f">>, F1("_min_by", F1("map", ArrQ(F0("f"))))),
+  FDef("max_by", <<"f">>, F1("_max_by", F1("map", ArrQ(F0("f"))))),
+  FDef("sort_by", <<"f">>, F1("_sort_by", F1("map", ArrQ(F0("f"))))),
+  FDef("group_by", <<"f">>, F1("_group_by", F1("map", ArrQ(F0("f"))))),
+  FDef("unique_by", <<"f">>, F1("_unique_by", F1("map", ArrQ(F0("f"))))),
+  FDef("arrays", <<>>, F1("select", BinQ("==", F0("type"), StrQ("array")))),
+  FDef("objects", <<>>, F1("select", BinQ("==", F0("type"), StrQ("object")))),
+  FDef("strings", <<>>, F1("select", BinQ("==", F0("type"), StrQ("string")))),
+  FDef("numbers", <<>>, F1("select", BinQ("==", F0("type"), StrQ("number")))),
+  FDef("booleans", <<>>, F1("select", BinQ("==", F0("type"), StrQ("boolean")))),
+  FDef("nulls", <<>>, F1("select", BinQ("==", Ident, NullQ))),
+  FDef("values", <<>>, F1("select", BinQ("!=", Ident, NullQ))),
+  FDef("scalars", <<>>, F1("select", Pipe(F0("type"), BinQ("and", BinQ("!=", Ident, StrQ("array")), BinQ("!=", Ident, StrQ("object")))))),
+  FDef("iterables", <<>>, F1("select", Pipe(F0("type"), BinQ("or", BinQ("==", Ident, StrQ("array")), BinQ("==", Ident, StrQ("object")))))),
+  FDef("first", <<>>, IndexQ(NumQ("0"))),
+  FDef("first", <<"g">>, LabelQ("$out", Pipe(F0("g"), Comma(Ident, BreakQ("$out"))))),
+  FDef("last", <<>>, IndexQ(NegQ(NumQ("1")))),
+  FDef("isempty", <<"g">>, LabelQ("$out", Comma(Paren(Pipe(F0("g"), Comma(FalseQ, BreakQ("$out")))), TrueQ))),
+  FDef("all", <<>>, F1("all", Ident)),
+  FDef("all", <<"y">>, F2("all", IterAll, F0("y"))),
+  FDef("all", <<"g", "y">>, F1("isempty", Pipe(F0("g"), F1("select", Pipe(F0("y"), F0("not")))))),
+  FDef("any", <<>>, F1("any", Ident)),
+  FDef("any", <<"y">>, F2("any", IterAll, F0("y"))),
+  FDef("any", <<"g", "y">>, Pipe(F1("isempty", Pipe(F0("g"), F1("select", F0("y")))), F0("not"))),
+  FDef("limit", <<"$n", "g">>,
+       IfElifQ(BinQ(">", VarQ("$n"), NumQ("0")),
+               LabelQ("$out", Foreach3Q(F0("g"), PVar("$item"), VarQ("$n"), BinQ("-", Ident, NumQ("1")),
+                                        Comma(VarQ("$item"), IfQ(BinQ("<=", Ident, NumQ("0")), BreakQ("$out"), EmptyQ)))),
+               BinQ("==", VarQ("$n"), NumQ("0")), EmptyQ,
+               F1("error", StrQ("limit doesn't support negative count")))),
+  FDef("nth", <<"$n">>, IndexQ(VarQ("$n"))),
+  FDef("paths", <<>>, Pipe(F1("path", RecurseQ), F1("select", BinQ("!=", Ident, EmptyArrQ)))),
+  FDef("paths", <<"f">>, Pipe(F1("path", Pipe(RecurseQ, F1("select", F0("f")))), F1("select", BinQ("!=", Ident, EmptyArrQ)))),
+  FDef("inputs", <<>>, TryCatchQ(F1("repeat", F0("input")), IfQ(BinQ("==", Ident, StrQ("break")), EmptyQ, F0("error"))))
+>>
+LibIdx(n, ar) == LET is == {i \in 1 .. Len(Lib) : Lib[i].name = n /\ (IF HasF(Lib[i], "args") THEN Len(Lib[i].args) ELSE 0) = ar} IN
+                 IF is = {} THEN 0 ELSE CHOOSE i \in is : TRUE
+(* literals the library itself uses *)
+LibStr == ("array" :> <<97, 114, 114, 97, 121>>) @@ ("object" :> <<111, 98, 106, 101, 99, 116>>) @@ ("string" :> <<115, 116, 114, 105, 110, 103>>)
+          @@ ("number" :> <<110, 117, 109, 98, 101, 114>>) @@ ("boolean" :> <<98, 111, 111, 108, 101, 97, 110>>) @@ ("null" :> <<110, 117, 108, 108>>) @@ ("break" :> <<98, 114, 101, 97, 107>>)
+          @@ ("limit doesn't support negative count" :> <<108,105,109,105,116,32,100,111,101,115,110,39,116,32,115,117,112,112,111,114,116,32,110,101,103,97,116,105,118,101,32,99,111,117,110,116>>)
+LibNum == ("0" :> 0) @@ ("1" :> 1)
+Natives0 == {"length", "keys", "type", "add", "tostring", "tojson", "fromjson", "explode", "implode", "to_entries", "from_entries",
+             "sort", "unique", "min", "max", "reverse", "input_filename"}
+Natives1 == {"has", "split", "ltrimstr", "rtrimstr", "startswith", "endswith", "join", "_sort_by", "_group_by", "_unique_by",
+             "_min_by", "_max_by", "getpath"}
+(* names the core gives a meaning to, with arity: used by the checks to decide whether a program is in the core at all *)
+KnownFn(n, ar) == \/ LibIdx(n, ar) # 0
+                  \/ (ar = 0 /\ n \in Natives0 \cup {"empty", "error", "input", "debug", "stderr"})
+                  \/ (ar = 1 /\ n \in Natives1 \cup {"error", "path", "debug", "last"})
+                  \/ (ar = 3 /\ n = "_range")
+LibStrType(v) == LibStr[TypeName(v)]
+StrLit(env, s) == IF s = "" THEN <<>> ELSE IF s \in DOMAIN env.lit.str THEN env.lit.str[s] ELSE LibStr[s]
+NumLit(env, s) == IF s \in DOMAIN env.lit.num THEN env.lit.num[s] ELSE LibNum[s]
+
+(******************************** path tracking *****************************)
+(* Is the current value the one at the tracked path?  Containers: physically the same object (identity); scalars: *)
+(* equal to the tracked value (the engine compares scalars by value).  "unk": empty arrays may alias.            *)
+Intact(st) == LET here == [f |-> st.f, p |-> st.P] IN
+              IF st.id = here THEN "yes"
+              ELSE IF st.v.t \in {"arr", "obj"} THEN (IF st.v.t = "arr" /\ st.v.v = <<>> /\ st.W = st.v THEN "unk" ELSE "no")
+              ELSE IF st.v = st.W THEN "yes" ELSE "no"
+(* a path operation produced w under key: check, then extend the path *)
+PathStep(st, key, w) ==
+    IF ~st.pm THEN <<OutV(Fresh(st, w))>>
+    ELSE LET i == Intact(st) IN
+         IF i = "unk" THEN <<Unm(st, "identity of an empty array")>>
+         ELSE IF i = "no" THEN <<ErrB(st)>>
+         ELSE <<OutV([st EXCEPT !.v = w, !.P = Append(st.P, key), !.W = w, !.id = [f |-> st.f, p |-> Append(st.P, key)]])>>
+Guarded(st, vals, r) ==          \* outcome of a native result r computed from vals
+    IF \E i \in 1 .. Len(vals) : HasOpaque(vals[i]) THEN <<Unm(st, "uses the text of a built-in error message")>>
+    ELSE IF IsErr(r) THEN (IF st.alt THEN <<Unm(st, "error downstream of a live destructuring alternative")>> ELSE <<ErrB(st)>>)
+    ELSE IF IsUnk(r) THEN <<Unm(st, r.unk)>> ELSE <<OutV(Fresh(st, r))>>
+IndexStep(st, key) ==
+    IF HasOpaque(st.v) \/ HasOpaque(key) THEN <<Unm(st, "uses the text of a built-in error message")>>
+    ELSE LET w == NIndex(st.v, key) IN IF IsErr(w) THEN <<ErrB(st)>> ELSE PathStep(st, key, w)
+SliceKey(s, e) == JObjRaw(<<K_end, K_start>>, <<e, s>>)
+SliceStep(st, s, e) ==
+    IF HasOpaque(st.v) \/ HasOpaque(s) \/ HasOpaque(e) THEN <<Unm(st, "uses the text of a built-in error message")>>
+    ELSE LET w == NSlice(st.v, e, s) IN IF IsErr(w) THEN <<ErrB(st)>> ELSE PathStep(st, SliceKey(s, e), w)
+IterStep(st) ==
+    LET v == st.v IN
+    IF HasOpaque(v) THEN <<Unm(st, "uses the text of a built-in error message")>>
+    ELSE IF v.t \notin {"arr", "obj"} THEN <<ErrB(st)>>
+    ELSE LET i == IF st.pm THEN Intact(st) ELSE "yes" IN
+         IF i = "unk" THEN <<Unm(st, "identity of an empty array")>>
+         ELSE IF i = "no" THEN <<ErrB(st)>>
+         ELSE [j \in 1 .. Len(v.v) |->
+                 LET key == IF v.t = "arr" THEN JNum(j - 1) ELSE JStr(v.k[j]) IN
+                 IF st.pm THEN OutV([st EXCEPT !.v = v.v[j], !.P = Append(st.P, key), !.W = v.v[j], !.id = [f |-> st.f, p |-> Append(st.P, key)]])
+                 ELSE OutV(Fresh(st, v.v[j]))]
+
+(********************************* evaluation *******************************)
+RECURSIVE Eval(_, _, _), EvalTerm(_, _, _), EvalBase(_, _, _), EvalFn(_, _, _, _), Call(_, _, _, _), EvalArgs(_, _, _, _, _),
+          EvalObj(_, _, _, _, _), EvalStr(_, _, _, _), EvalIdx(_, _, _, _), EvalIf(_, _, _, _, _, _), EvalBind(_, _, _, _),
+          Destr(_, _, _, _, _), DestrSeq(_, _, _, _, _, _), Reduce(_, _, _), Foreach(_, _, _), PatVarsOf(_), CutLabel(_, _), EvalDefs(_, _, _)
+
+(* evaluate argument queries for a native call: last argument first (outermost loop), each on the call's input; *)
+(* results [k |-> "a", vals, s] with the path context threaded through, or a terminating outcome               *)
+EvalArgs(args, i, st, cur, env) ==
+    IF i = 0 THEN <<[k |-> "a", vals |-> <<>>, s |-> cur]>>
+    ELSE LET os == Eval(args[i], [cur EXCEPT !.v = st.v, !.id = st.id], env)
+             RECURSIVE G(_, _)
+             G(j, eff) == IF j > Len(os) THEN <<>>
+                          ELSE IF ~IsV(os[j]) THEN <<os[j]>>
+                          ELSE LET inner == EvalArgs(args, i - 1, st, Back(os[j].s, eff), env)
+                                   mine == [m \in 1 .. Len(inner) |-> IF inner[m].k = "a" THEN [inner[m] EXCEPT !.vals = Append(@, os[j].s.v)] ELSE inner[m]]
+                                   eff2 == IF mine = <<>> THEN eff ELSE mine[Len(mine)].s IN
+                               IF mine # <<>> /\ mine[Len(mine)].k \notin {"a"} THEN mine ELSE mine \o G(j + 1, eff2)
+         IN G(1, LastSt(os, cur))
+(* vals come out in argument order: vals[1] is the first argument *)
+ApplyNative(args, st, env, Op(_)) ==
+    LET as == EvalArgs(args, Len(args), st, st, env) IN
+    LET RECURSIVE G(_)
+        G(j) == IF j > Len(as) THEN <<>>
+                ELSE IF as[j].k # "a" THEN <<as[j]>>
+                ELSE LET r == Guarded(as[j].s, <<st.v>> \o as[j].vals, Op(as[j].vals)) IN
+                     IF Ended(r) THEN r ELSE r \o G(j + 1)
+    IN G(1)
+
+EvalDefs(ds, i, env) == IF i > Len(ds) THEN env
+                        ELSE EvalDefs(ds, i + 1, [env EXCEPT !.funcs = Append(@, [n |-> ds[i].name, ar |-> IF HasF(ds[i], "args") THEN Len(ds[i].args) ELSE 0,
+                                                                                     ps |-> IF HasF(ds[i], "args") THEN ds[i].args ELSE <<>>,
+                                                                                     body |-> ds[i].body, env |-> env, param |-> FALSE])])
+Eval(q, st, env0) ==
+    LET env == EvalDefs(DefsOf(q), 1, env0) IN
+    IF HasF(q, "term") THEN EvalTerm(q.term, st, env)
+    ELSE IF ~HasF(q, "op") THEN <<Unm(st, "program without a body")>>
+    ELSE LET op == q.op IN
+    CASE op = "|" -> FlatMap(Eval(q.left, st, env), st, LAMBDA s : Eval(q.right, s, env))
+      [] op = "," -> LET l == Eval(q.left, st, env) IN IF Ended(l) THEN l ELSE l \o Eval(q.right, Back(st, LastSt(l, st)), env)
+      [] op = "//" ->    \* truthy outputs of the left side; if there are none, the right side.  Errors of the left side end it quietly.
+            LET l == Eval(q.left, st, env)
+                lv == SelectSeq(l, LAMBDA o : IsV(o) /\ Truthy(o.s.v))
+                stop == IF Ended(l) THEN l[Len(l)] ELSE <<>> IN
+            IF stop # <<>> /\ stop.k \in {"x", "b"} THEN Append(lv, stop)
+            ELSE IF lv # <<>> THEN (IF stop # <<>> /\ stop.k = "e" THEN Append(lv, stop) ELSE lv)
+            ELSE Eval(q.right, Back(st, LastSt(l, st)), env)
+      [] op = "and" -> EvalIf(q.left, IfQ(q.right, TrueQ, FalseQ), <<>>, FalseQ, st, env)
+      [] op = "or" -> EvalIf(q.left, TrueQ, <<>>, IfQ(q.right, TrueQ, FalseQ), st, env)
+      [] op \in {"+", "-", "*", "/", "%", "==", "!=", "<", "<=", ">", ">="} ->
+            ApplyNative(<<q.left, q.right>>, st, env, LAMBDA vs : Arith(op, vs[1], vs[2]))
+      [] OTHER -> <<Unm(st, "update operator")>>
+
+(* if c then t (elif..)* else e: c evaluated outside path tracking, the branch on the input *)
+EvalIf(c, t, elifs, e, st, env) ==
+    FlatMap(Eval(c, NP(st), env), st, LAMBDA s :
+        IF Truthy(s.v) THEN Eval(t, Back(st, s), env)
+        ELSE IF elifs # <<>> THEN EvalIf(elifs[1].cond, elifs[1].then, Tail(elifs), e, Back(st, s), env)
+        ELSE IF e = <<>> THEN <<OutV(Back(st, s))>>
+        ELSE Eval(e, Back(st, s), env))
+
+EvalTerm(t, st, env) ==
+    IF ~HasF(t, "suffix_list") THEN EvalBase(t, st, env)
+    ELSE LET n == Len(t.suffix_list)
+             s == t.suffix_list[n]
+             base == WithSuffixes(t, SubSeq(t.suffix_list, 1, n - 1)) IN
+         IF HasF(s, "index") THEN EvalIdx(base, s.index, st, env)
+         ELSE IF HasF(s, "iter") THEN FlatMap(EvalTerm(base, st, env), st, LAMBDA x : IterStep(x))
+         ELSE IF HasF(s, "bind") THEN EvalBind(base, s.bind, st, env)
+         ELSE \* optional: `T.k?` is T | try .k  (the engine wraps only the last index/iterate step); otherwise try(T)
+              LET m == Len(SuffixesOf(base))
+                  lastS == IF m > 0 THEN base.suffix_list[m] ELSE <<>>
+                  tryBody == IF m > 0 /\ HasF(lastS, "index") THEN [type |-> "TermTypeIndex", index |-> lastS.index]
+                             ELSE IF m > 0 /\ HasF(lastS, "iter") THEN IterAll.term ELSE base
+                  pre == IF m > 0 /\ (HasF(lastS, "index") \/ HasF(lastS, "iter")) THEN WithSuffixes(base, SubSeq(base.suffix_list, 1, m - 1)) ELSE <<>>
+                  tryIt(x) == LET os == EvalTerm(tryBody, x, env) IN
+                              IF Ended(os) /\ os[Len(os)].k = "e" THEN SubSeq(os, 1, Len(os) - 1) ELSE os
+              IN IF pre = <<>> THEN tryIt(st) ELSE FlatMap(EvalTerm(pre, st, env), st, LAMBDA x : tryIt(x))
+
+(* T[key], T[a:b], T.name, T."str": constant keys index T's outputs directly; computed keys are evaluated first (on the input, *)
+(* outside path tracking), slice start before slice end, and T innermost                                                      *)
+ConstKey(x, env) ==
+    IF HasF(x, "name") THEN (IF HasStrLit(env, x.name) THEN JStr(StrLit(env, x.name)) ELSE [unk |-> "literal"])
+    ELSE IF HasF(x, "str") THEN (IF HasF(x.str, "queries") THEN <<>> ELSE IF HasStrLit(env, StrOfRec(env, x.str)) THEN JStr(StrLit(env, StrOfRec(env, x.str))) ELSE [unk |-> "literal"])
+    ELSE IF HasF(x, "is_slice") THEN <<>>
+    ELSE LET k == x.start IN
+         IF ~TermOnly(k) \/ HasF(k.term, "suffix_list") THEN <<>>
+         ELSE IF k.term.type = "TermTypeNumber" THEN (IF HasNumLit(env, k.term.number) THEN JNum(NumLit(env, k.term.number)) ELSE [unk |-> "literal"])
+         ELSE IF k.term.type = "TermTypeUnary" /\ k.term.unary.term.type = "TermTypeNumber" /\ ~HasF(k.term.unary.term, "suffix_list")
+              THEN (IF HasNumLit(env, k.term.unary.term.number) THEN JNum((IF k.term.unary.op = "-" THEN -1 ELSE 1) * NumLit(env, k.term.unary.term.number)) ELSE [unk |-> "literal"])
+         ELSE IF k.term.type = "TermTypeString" /\ ~HasF(k.term.str, "queries")
+              THEN (IF HasStrLit(env, StrOfRec(env, k.term.str)) THEN JStr(StrLit(env, StrOfRec(env, k.term.str))) ELSE [unk |-> "literal"])
+         ELSE <<>>
+EvalIdx(base, x, st, env) ==
+    LET ck == ConstKey(x, env) IN
+    IF ck # <<>> THEN (IF IsUnk(ck) THEN <<Unm(st, "literal outside the table")>>
+                       ELSE FlatMap(EvalTerm(base, st, env), st, LAMBDA b : IndexStep(b, ck)))
+    ELSE IF HasF(x, "str") THEN
+        FlatMap(EvalStr(x.str, "tostring", NP(st), env), st, LAMBDA k : FlatMap(EvalTerm(base, Back(st, k), env), st, LAMBDA b : IndexStep(b, k.v)))
+    ELSE IF ~HasF(x, "is_slice") THEN
+        FlatMap(Eval(x.start, NP(st), env), st, LAMBDA k : FlatMap(EvalTerm(base, Back(st, k), env), st, LAMBDA b : IndexStep(b, k.v)))
+    ELSE LET startQ == IF HasF(x, "start") THEN x.start ELSE NullQ
+             endQ == IF HasF(x, "end") THEN x.end ELSE NullQ IN
+         FlatMap(Eval(startQ, NP(st), env), st, LAMBDA s :
+            FlatMap(Eval(endQ, NP(Back(st, s)), env), st, LAMBDA e :
+               FlatMap(EvalTerm(base, Back(st, e), env), st, LAMBDA b : SliceStep(b, s.v, e.v))))
+
+(* "..\(q).." : parts added left to right; the engine evaluates the LAST part outermost *)
+EvalStr(sr, fmt, st, env) ==
+    IF ~HasF(sr, "queries") THEN
+        (IF HasStrLit(env, StrOfRec(env, sr)) THEN <<OutV(Fresh(st, JStr(StrLit(env, StrOfRec(env, sr)))))>> ELSE <<Unm(st, "literal outside the table")>>)
+    ELSE LET parts == [i \in 1 .. Len(sr.queries) |->
+                          IF HasF(sr.queries[i].term, "str") THEN sr.queries[i] ELSE Pipe(sr.queries[i], F0(fmt))]
+             RECURSIVE Sum(_)
+             Sum(i) == IF i = 1 THEN parts[1] ELSE Bin("+", Sum(i - 1), parts[i])
+         IN IF parts = <<>> THEN <<OutV(Fresh(st, JStr(<<>>)))>> ELSE Eval(Sum(Len(parts)), st, env)
+
+(* {k: v, ...}: entries left to right, the first entry outermost; key before value; later duplicates win *)
+EvalObj(kvs, i, st, cur, env) ==
+    IF i > Len(kvs) THEN <<[k |-> "a", vals |-> <<>>, s |-> cur]>>
+    ELSE LET kv == kvs[i]
+             inSt == [cur EXCEPT !.v = st.v, !.id = st.id]
+             keyOs == IF HasF(kv, "key") THEN
+                          (IF IsVarName(kv.key) THEN <<OutV(Fresh(inSt, JNull))>>      \* {$x}: key is the name without `$` (see below)
+                           ELSE IF HasStrLit(env, kv.key) THEN <<OutV(Fresh(inSt, JStr(StrLit(env, kv.key))))>> ELSE <<Unm(cur, "literal outside the table")>>)
+                      ELSE IF HasF(kv, "key_string") THEN EvalStr(kv.key_string, "tostring", inSt, env)
+                      ELSE Eval(kv.key_query, inSt, env)
+             valOf(ks) == IF HasF(kv, "val") THEN Eval(kv.val, [ks EXCEPT !.v = st.v, !.id = st.id], env)
+                          ELSE IF HasF(kv, "key") /\ IsVarName(kv.key) THEN <<Unm(ks, "{$x} shorthand")>>
+                          ELSE IndexStep([ks EXCEPT !.v = st.v, !.id = st.id], ks.v)       \* {a} == {a: .a}
+             RECURSIVE G(_, _)
+             G(pairs, j) == IF j > Len(pairs) THEN <<>>
+                            ELSE IF ~HasF(pairs[j], "kk") THEN <<pairs[j]>>
+                            ELSE LET rest == EvalObj(kvs, i + 1, st, pairs[j].s, env)
+                                     mine == [m \in 1 .. Len(rest) |-> IF rest[m].k = "a" THEN [rest[m] EXCEPT !.vals = <<<<pairs[j].kk, pairs[j].s.v>>>> \o @] ELSE rest[m]] IN
+                                 IF mine # <<>> /\ mine[Len(mine)].k # "a" THEN mine ELSE mine \o G(pairs, j + 1)
+             \* all (key, value) pairs of this entry in order, key outer
+             pairsOf == LET RECURSIVE K(_, _)
+                            K(j, eff) == IF j > Len(keyOs) THEN <<>>
+                                         ELSE IF ~IsV(keyOs[j]) THEN <<keyOs[j]>>
+                                         ELSE LET ks == Back(keyOs[j].s, eff)
+                                                  vs == valOf(ks)
+                                                  tagged == [m \in 1 .. Len(vs) |-> IF IsV(vs[m]) THEN [kk |-> ks.v, s |-> vs[m].s] ELSE vs[m]] IN
+                                              IF Ended(vs) THEN tagged ELSE tagged \o K(j + 1, LastSt(vs, ks))
+                        IN K(1, LastSt(keyOs, cur))
+         IN G(pairsOf, 1)
+
+PatVarsOf(p) == IF HasF(p, "name") THEN {p.name}
+                ELSE IF HasF(p, "array") THEN UNION {PatVarsOf(p.array[i]) : i \in 1 .. Len(p.array)}
+                ELSE UNION {(IF HasF(p.object[i], "key") /\ IsVarName(p.object[i].key) THEN {p.object[i].key} ELSE {})
+                            \cup (IF HasF(p.object[i], "val") THEN PatVarsOf(p.object[i].val) ELSE {}) : i \in 1 .. Len(p.object)}
+(* destructuring: outcomes [k |-> "env", e, s] or a terminating outcome *)
+Destr(p, v, vid, env, st) ==
+    IF HasF(p, "name") THEN <<[k |-> "env", e |-> BindVar(env, p.name, v, vid), s |-> st]>>
+    ELSE IF HasOpaque(v) THEN <<Unm(st, "uses the text of a built-in error message")>>
+    ELSE IF HasF(p, "array") THEN
+        (IF v.t \notin {"null", "arr"} THEN <<ErrB(st)>>
+         ELSE DestrSeq([i \in 1 .. Len(p.array) |-> [pat |-> p.array[i], key |-> JNum(i - 1)]], 1, v, env, st, FALSE))
+    ELSE DestrSeq([i \in 1 .. Len(p.object) |-> [ent |-> p.object[i]]], 1, v, env, st, TRUE)
+DestrSeq(items, i, v, env, st, isObj) ==
+    IF i > Len(items) THEN <<[k |-> "env", e |-> env, s |-> st]>>
+    ELSE LET next(e2, s2) == DestrSeq(items, i + 1, v, e2, s2, isObj)
+             chain(os) == LET RECURSIVE G(_) G(j) == IF j > Len(os) THEN <<>> ELSE IF os[j].k # "env" THEN <<os[j]>>
+                                                     ELSE LET r == next(os[j].e, os[j].s) IN IF r # <<>> /\ r[Len(r)].k # "env" THEN r ELSE r \o G(j + 1)
+                          IN G(1) IN
+         IF ~isObj THEN LET w == NIndex(v, items[i].key) IN chain(Destr(items[i].pat, w, NoId, env, st))
+         ELSE LET ent == items[i].ent
+                  \* the key: `$name` (binds $name too), identifier, string (maybe interpolated) or (query); the key query's input is the value
+                  withKey(kv, e2, s2) ==
+                      IF kv.t # "str" \/ v.t \notin {"null", "obj"} THEN <<ErrB(s2)>>
+                      ELSE LET w == NIndex(v, kv) IN
+                           IF HasF(ent, "val") THEN Destr(ent.val, w, NoId, e2, s2) ELSE <<[k |-> "env", e |-> e2, s |-> s2]>>
+              IN IF HasF(ent, "key") THEN
+                     (IF IsVarName(ent.key) THEN <<Unm(st, "{$x} pattern")>>
+                      ELSE IF ~HasStrLit(env, ent.key) THEN <<Unm(st, "literal outside the table")>>
+                      ELSE chain(withKey(JStr(StrLit(env, ent.key)), env, st)))
+                 ELSE LET kos == IF HasF(ent, "key_string") THEN EvalStr(ent.key_string, "tostring", Fresh(NP(st), v), env)
+                                 ELSE Eval(ent.key_query, Fresh(NP(st), v), env)
+                          RECURSIVE K(_)
+                          K(j) == IF j > Len(kos) THEN <<>> ELSE IF ~IsV(kos[j]) THEN <<kos[j]>>
+                                  ELSE LET r == chain(withKey(kos[j].s.v, env, Back(st, kos[j].s))) IN
+                                       IF r # <<>> /\ r[Len(r)].k # "env" THEN r ELSE r \o K(j + 1)
+                      IN K(1)
+
+(* T as p1 ?// p2 .. | body: T outside path tracking; body on the input.  With alternatives, an error anywhere after *)
+(* binding pattern k (destructuring or body) moves on to pattern k+1, keeping what was already output.              *)
+EvalBind(base, b, st, env) ==
+    LET allVars == UNION {PatVarsOf(b.patterns[i]) : i \in 1 .. Len(b.patterns)}
+        RECURSIVE NullVars(_, _)
+        NullVars(e, vs) == IF vs = {} THEN e ELSE LET x == CHOOSE y \in vs : TRUE IN NullVars(BindVar(e, x, JNull, NoId), vs \ {x})
+        env1 == IF Len(b.patterns) > 1 THEN NullVars(env, allVars) ELSE env
+        RECURSIVE TryPat(_, _, _)
+        TryPat(i, src, eff) ==
+            LET ds == Destr(b.patterns[i], src.v, src.id, env1, Back(st, eff))
+                run == LET RECURSIVE G(_, _)
+                           G(j, e2) == IF j > Len(ds) THEN <<>> ELSE IF ds[j].k # "env" THEN <<ds[j]>>
+                                       ELSE LET r == Eval(b.body, Back(st, Back(ds[j].s, e2)), ds[j].e) IN
+                                            IF Ended(r) THEN r ELSE r \o G(j + 1, LastSt(r, e2))
+                       IN G(1, eff)
+                mark(os) == [m \in 1 .. Len(os) |-> IF IsV(os[m]) THEN [os[m] EXCEPT !.s.alt = TRUE] ELSE os[m]] IN
+            IF i < Len(b.patterns) /\ Ended(run) /\ run[Len(run)].k = "e"
+            THEN LET kept == SubSeq(run, 1, Len(run) - 1) IN mark(kept) \o TryPat(i + 1, src, LastSt(run, eff))
+            ELSE IF i < Len(b.patterns) THEN mark(run) ELSE run
+    IN IF st.pm /\ Len(b.patterns) > 1 THEN <<Unm(st, "destructuring alternatives under path tracking")>>
+       ELSE FlatMap(EvalTerm(base, NP(st), env), st, LAMBDA src : TryPat(1, src, src))
+
+(* reduce: for every start value; each item's LAST update output becomes the state (none: unchanged) *)
+Reduce(r, st, env) ==
+    IF st.pm /\ ~HasF(r.pattern, "name") THEN <<Unm(st, "destructuring reduce under path tracking")>>
+    ELSE FlatMap(Eval(r.start, st, env), st, LAMBDA s0 :
+        LET items == Eval(r.query, Back(st, s0), env)
+            RECURSIVE G(_, _)
+            G(j, acc) ==      \* acc: state record carrying the accumulator value and effects
+                IF j > Len(items) THEN <<OutV(acc)>>
+                ELSE IF ~IsV(items[j]) THEN <<[items[j] EXCEPT !.s = Back(items[j].s, acc)]>>
+                ELSE LET ds == Destr(r.pattern, items[j].s.v, items[j].s.id, env, acc)
+                         RECURSIVE D(_, _)
+                         D(m, a) == IF m > Len(ds) THEN <<OutV(a)>> ELSE IF ds[m].k # "env" THEN <<ds[m]>>
+                                    ELSE LET us == Eval(r.update, Back(a, ds[m].s), ds[m].e) IN
+                                         IF Ended(us) THEN <<us[Len(us)]>>
+                                         ELSE D(m + 1, IF us = <<>> THEN Back(a, ds[m].s) ELSE us[Len(us)].s)
+                         after == D(1, acc) IN
+                     IF ~IsV(after[1]) THEN after ELSE G(j + 1, after[1].s)
+        IN G(1, [s0 EXCEPT !.id = NoId]))
+(* foreach: every update output becomes the state and is emitted (through extract) *)
+Foreach(f, st, env) ==
+    IF st.pm /\ ~HasF(f.pattern, "name") THEN <<Unm(st, "destructuring foreach under path tracking")>>
+    ELSE FlatMap(Eval(f.start, st, env), st, LAMBDA s0 :
+        LET items == Eval(f.query, Back(st, s0), env)
+            RECURSIVE G(_, _)
+            G(j, acc) ==
+                IF j > Len(items) THEN <<[k |-> "acc", s |-> acc]>>
+                ELSE IF ~IsV(items[j]) THEN <<[items[j] EXCEPT !.s = Back(items[j].s, acc)]>>
+                ELSE LET it == items[j].s
+                         ds == Destr(f.pattern, it.v, it.id, env, acc)
+                         \* the state flows on with the path context the item left behind
+                         RECURSIVE D(_, _)
+                         D(m, a) == IF m > Len(ds) THEN <<[k |-> "acc", s |-> a]>> ELSE IF ds[m].k # "env" THEN <<ds[m]>>
+                                    ELSE LET us == Eval(f.update, [it EXCEPT !.v = a.v, !.id = NoId, !.ins = ds[m].s.ins, !.side = ds[m].s.side], ds[m].e)
+                                             RECURSIVE U(_, _)
+                                             U(n, a2) == IF n > Len(us) THEN <<[k |-> "acc", s |-> a2]>>
+                                                         ELSE IF ~IsV(us[n]) THEN <<us[n]>>
+                                                         ELSE LET ex == IF HasF(f, "extract") THEN Eval(f.extract, Back(us[n].s, a2), ds[m].e) ELSE <<OutV(Back(us[n].s, a2))>>
+                                                                  a3 == [us[n].s EXCEPT !.ins = LastSt(ex, a2).ins, !.side = LastSt(ex, a2).side] IN
+                                                              IF Ended(ex) THEN ex ELSE ex \o U(n + 1, a3)
+                                         IN LET r == U(1, a) IN
+                                            IF r[Len(r)].k # "acc" THEN r ELSE SubSeq(r, 1, Len(r) - 1) \o D(m + 1, r[Len(r)].s)
+                         after == D(1, acc) IN
+                     IF after[Len(after)].k # "acc" THEN after ELSE SubSeq(after, 1, Len(after) - 1) \o G(j + 1, after[Len(after)].s)
+            all == G(1, [s0 EXCEPT !.id = NoId])
+        IN IF all # <<>> /\ all[Len(all)].k = "acc" THEN SubSeq(all, 1, Len(all) - 1) ELSE all)
+
+CutLabel(os, id) == LET is == {i \in 1 .. Len(os) : os[i].k = "b" /\ os[i].l = id} IN
+                    IF is = {} THEN os ELSE SubSeq(os, 1, (CHOOSE i \in is : \A j \in is : i <= j) - 1)
+
+EvalBase(t, st, env) ==
+    LET ty == t.type IN
+    CASE ty = "TermTypeIdentity" -> <<OutV(st)>>
+      [] ty = "TermTypeRecurse" -> EvalFn("recurse", <<>>, st, env)
+      [] ty = "TermTypeNull" -> <<OutV(Fresh(st, JNull))>>
+      [] ty = "TermTypeTrue" -> <<OutV(Fresh(st, JTrue))>>
+      [] ty = "TermTypeFalse" -> <<OutV(Fresh(st, JFalse))>>
+      [] ty = "TermTypeNumber" -> IF HasNumLit(env, t.number) THEN <<OutV(Fresh(st, JNum(NumLit(env, t.number))))>> ELSE <<Unm(st, "number literal outside the table")>>
+      [] ty = "TermTypeString" -> EvalStr(t.str, "tostring", st, env)
+      [] ty = "TermTypeFormat" ->
+            IF t.format \notin {"@text", "@json"} THEN <<Unm(st, "format")>>
+            ELSE LET fn == IF t.format = "@json" THEN "tojson" ELSE "tostring" IN
+                 IF HasF(t, "str") THEN EvalStr(t.str, fn, st, env) ELSE EvalFn(fn, <<>>, st, env)
+      [] ty = "TermTypeIndex" -> EvalIdx(Ident.term, t.index, st, env)
+      [] ty = "TermTypeFunc" -> EvalFn(t.func.name, IF HasF(t.func, "args") THEN t.func.args ELSE <<>>, st, env)
+      [] ty = "TermTypeObject" ->
+            IF ~HasF(t.object, "key_vals") THEN <<OutV(Fresh(st, JEmptyObj))>>
+            ELSE LET rs == EvalObj(t.object.key_vals, 1, st, st, env) IN
+                 [i \in 1 .. Len(rs) |->
+                    IF rs[i].k # "a" THEN rs[i]
+                    ELSE IF \E j \in 1 .. Len(rs[i].vals) : rs[i].vals[j][1].t # "str"
+                         THEN (IF \E j \in 1 .. Len(rs[i].vals) : HasOpaque(rs[i].vals[j][1]) THEN Unm(rs[i].s, "uses the text of a built-in error message") ELSE ErrB(rs[i].s))
+                         \* the engine keeps the FIRST of duplicate keys
+                         ELSE OutV(Fresh([st EXCEPT !.ins = rs[i].s.ins, !.side = rs[i].s.side, !.P = rs[i].s.P, !.W = rs[i].s.W],
+                                         ObjFromPairs([j \in 1 .. Len(rs[i].vals) |-> <<rs[i].vals[Len(rs[i].vals) + 1 - j][1].s, rs[i].vals[Len(rs[i].vals) + 1 - j][2]>>])))]
+      [] ty = "TermTypeArray" ->
+            IF ~HasF(t.array, "query") THEN <<OutV(Fresh(st, JArr(<<>>)))>>
+            ELSE LET os == Eval(t.array.query, st, env) IN
+                 IF Ended(os) THEN <<[os[Len(os)] EXCEPT !.s = Back(st, os[Len(os)].s)]>>
+                 ELSE <<OutV(Fresh(Back(st, LastSt(os, st)), JArr([i \in 1 .. Len(os) |-> os[i].s.v])))>>          \* the generator is exhausted: st.alt as on entry
+      [] ty = "TermTypeUnary" ->
+            LET u == t.unary.term IN
+            IF u.type = "TermTypeNumber" /\ ~HasF(u, "suffix_list") THEN
+                (IF HasNumLit(env, u.number) THEN <<OutV(Fresh(st, JNum((IF t.unary.op = "-" THEN -1 ELSE 1) * NumLit(env, u.number))))>>
+                 ELSE <<Unm(st, "number literal outside the table")>>)
+            ELSE FlatMap(EvalTerm(u, st, env), st, LAMBDA x :
+                     Guarded(x, <<x.v>>, IF x.v.t # "num" THEN Err ELSE IF t.unary.op = "-" THEN JNum(-x.v.n) ELSE x.v))
+      [] ty = "TermTypeIf" -> EvalIf(t.if.cond, t.if.then, IF HasF(t.if, "elif") THEN t.if.elif ELSE <<>>, IF HasF(t.if, "else") THEN t.if.else ELSE <<>>, st, env)
+      [] ty = "TermTypeTry" ->
+            LET os == Eval(t.try.body, st, env) IN
+            IF Ended(os) /\ os[Len(os)].k = "e" THEN
+                LET e == os[Len(os)] kept == SubSeq(os, 1, Len(os) - 1) IN
+                IF HasF(t.try, "catch") THEN kept \o Eval(t.try.catch, Fresh(Back(NP(st), e.s), e.v), env) ELSE kept
+            ELSE os
+      [] ty = "TermTypeReduce" -> Reduce(t.reduce, st, env)
+      [] ty = "TermTypeForeach" -> Foreach(t.foreach, st, env)
+      [] ty = "TermTypeLabel" ->
+            LET id == env.dc + 1 IN
+            CutLabel(Eval(t.label.body, st, [env EXCEPT !.dc = id, !.labels = Append(@, [n |-> t.label.ident, id |-> id])]), id)
+      [] ty = "TermTypeBreak" -> LET id == LookupLabel(env, t.break) IN IF id = 0 THEN <<Unm(st, "break without label")>> ELSE <<Brk(st, id)>>
+      [] ty = "TermTypeQuery" -> Eval(t.query, st, env)
+
+(* calling a closure: definitions see themselves; `$p` parameters are evaluated on the call's input outside path tracking, *)
+(* the first parameter outermost; other parameters are closures over the caller's environment                            *)
+Call(c, args, st, env) ==
+    IF env.fuel <= 0 THEN <<Unm(st, "call depth")>>
+    ELSE LET base == Dyn(IF c.param THEN c.env ELSE [c.env EXCEPT !.funcs = Append(@, c)], env)
+             withFilters == [base EXCEPT !.funcs = @ \o [i \in 1 .. Len(args) |->
+                                 [n |-> IF IsVarName(c.ps[i]) THEN "" ELSE c.ps[i], ar |-> 0, ps |-> <<>>, body |-> args[i], env |-> env, param |-> TRUE]]]
+             valueParams == SelectSeq([i \in 1 .. Len(args) |-> i], LAMBDA i : IsVarName(c.ps[i]))
+             RECURSIVE B(_, _, _)
+             B(k, e, eff) == IF k > Len(valueParams) THEN Eval(c.body, Back(st, eff), e)
+                             ELSE FlatMap(Eval(args[valueParams[k]], NP(Back(st, eff)), env), st,
+                                          LAMBDA s : B(k + 1, BindVar(e, c.ps[valueParams[k]], s.v, NoId), s))
+         IN B(1, withFilters, st)
+
+EvalFn(n, args, st, env) ==
+    LET ar == Len(args)
+        ui == LookupFn(env, n, ar)
+        var == IF ar = 0 THEN LookupVar(env, n) ELSE <<>> IN
+    IF ui # 0 THEN Call(env.funcs[ui], args, st, env)
+    ELSE IF var # <<>> THEN <<OutV([st EXCEPT !.v = var.v, !.id = var.id])>>
+    ELSE IF IsVarName(n) THEN <<Unm(st, "unbound variable")>>
+    ELSE IF LibIdx(n, ar) # 0 THEN
+        LET d == Lib[LibIdx(n, ar)] IN
+        Call([n |-> n, ar |-> ar, ps |-> IF HasF(d, "args") THEN d.args ELSE <<>>, body |-> d.body,
+              env |-> [env EXCEPT !.vars = <<>>, !.funcs = <<>>, !.labels = <<>>], param |-> FALSE], args, st, env)
+    ELSE CASE n = "empty" /\ ar = 0 -> <<>>
+           [] n = "error" /\ ar = 0 -> <<ErrU(st, st.v)>>
+           [] n = "error" /\ ar = 1 -> FlatMap(Eval(args[1], NP(st), env), st, LAMBDA s : <<ErrU(Back(st, s), s.v)>>)
+           [] n = "path" /\ ar = 1 ->
+                 LET fr == env.dc + 1
+                     inner == [st EXCEPT !.pm = TRUE, !.f = fr, !.P = <<>>, !.W = st.v, !.id = [f |-> fr, p |-> <<>>]]
+                     os == Eval(args[1], inner, [env EXCEPT !.dc = fr]) IN
+                 [i \in 1 .. Len(os) |->
+                    IF ~IsV(os[i]) THEN [os[i] EXCEPT !.s = Back(st, os[i].s)]
+                    ELSE LET it == Intact(os[i].s) IN
+                         IF it = "unk" THEN Unm(Back(st, os[i].s), "identity of an empty array")
+                         ELSE IF it = "no" THEN ErrB(Back(st, os[i].s))
+                         ELSE OutV(Fresh(Back(st, os[i].s), JArr(os[i].s.P)))]
+           [] n = "getpath" /\ ar = 1 ->
+                 FlatMap(Eval(args[1], NP(st), env), st, LAMBDA p :
+                    LET x == Back(st, p) IN
+                    IF HasOpaque(p.v) \/ HasOpaque(st.v) THEN <<Unm(x, "uses the text of a built-in error message")>>
+                    ELSE IF p.v.t # "arr" THEN <<ErrB(x)>>
+                    ELSE LET w == NGetpath(st.v, p.v.v, 1) IN
+                         IF IsErr(w) THEN <<ErrB(x)>>
+                         ELSE IF ~st.pm THEN <<OutV(Fresh(x, w))>>
+                         ELSE LET it == Intact(x) IN
+                              IF it = "unk" THEN <<Unm(x, "identity of an empty array")>> ELSE IF it = "no" THEN <<ErrB(x)>>
+                              ELSE <<OutV([x EXCEPT !.v = w, !.P = x.P \o p.v.v, !.W = w, !.id = [f |-> x.f, p |-> x.P \o p.v.v]])>>)
+           [] n = "last" /\ ar = 1 ->
+                 LET os == Eval(args[1], st, env) IN
+                 IF Ended(os) THEN <<os[Len(os)]>> ELSE IF os = <<>> THEN <<>> ELSE <<os[Len(os)]>>
+           [] n = "input" /\ ar = 0 ->
+                 IF st.ins = <<>> THEN <<ErrM(st, JStr(LibStr["break"]))>>
+                 ELSE <<OutV(Fresh([st EXCEPT !.ins = Tail(st.ins)], Head(st.ins)))>>
+           [] n = "debug" /\ ar = 0 ->
+                 IF HasOpaque(st.v) THEN <<Unm(st, "uses the text of a built-in error message")>>
+                 ELSE <<OutV([st EXCEPT !.side = Append(@, JArr(<<JStr(<<68, 69, 66, 85, 71, 58>>), st.v>>))])>>
+           [] n = "debug" /\ ar = 1 ->      \* def debug(f): (f | debug | empty), .;
+                 LET os == FlatMap(Eval(args[1], st, env), st, LAMBDA s : EvalFn("debug", <<>>, s, env)) IN
+                 IF Ended(os) THEN <<os[Len(os)]>> ELSE <<OutV(Back(st, LastSt(os, st)))>>
+           [] n = "stderr" /\ ar = 0 ->
+                 LET txt == NToString(st.v) IN
+                 IF HasOpaque(st.v) \/ IsUnk(txt) THEN <<Unm(st, "stderr text outside the model")>>
+                 ELSE <<OutV([st EXCEPT !.side = Append(@, txt)])>>
+           [] n = "input_filename" /\ ar = 0 -> <<OutV(Fresh(st, JNull))>>
+           [] n = "_range" /\ ar = 3 ->
+                 LET as == EvalArgs(args, 3, st, st, env)
+                     cnt(a, b, c) == IF c.n > 0 THEN (IF b.n > a.n THEN ((b.n - a.n - 1) \div c.n) + 1 ELSE 0)
+                                     ELSE IF c.n < 0 THEN (IF b.n < a.n THEN ((a.n - b.n - 1) \div (-c.n)) + 1 ELSE 0) ELSE 0
+                     rng(a, b, c) == [i \in 1 .. cnt(a, b, c) |-> a.n + (i - 1) * c.n]
+                     RECURSIVE G(_)
+                     G(j) == IF j > Len(as) THEN <<>> ELSE IF as[j].k # "a" THEN <<as[j]>>
+                             ELSE LET v == as[j].vals IN
+                                  IF \E i \in 1 .. 3 : HasOpaque(v[i]) THEN <<Unm(as[j].s, "uses the text of a built-in error message")>>
+                                  ELSE IF \E i \in 1 .. 3 : v[i].t # "num" THEN <<ErrB(as[j].s)>>
+                                  ELSE IF v[3].n = 0 /\ v[1].n < v[2].n THEN <<Unm(as[j].s, "unbounded range")>>
+                                  ELSE LET r == rng(v[1], v[2], v[3]) IN
+                                       IF Len(r) > MaxOut THEN <<Unm(as[j].s, "too many outputs")>>
+                                       ELSE [i \in 1 .. Len(r) |-> OutV(Fresh(as[j].s, JNum(r[i])))] \o G(j + 1)
+                 IN G(1)
+           [] ar = 0 /\ n \in Natives0 ->
+                 Guarded(st, <<st.v>>,
+                    CASE n = "length" -> NLength(st.v) [] n = "keys" -> NKeys(st.v) [] n = "type" -> JStr(LibStrType(st.v))
+                      [] n = "add" -> NAdd(st.v) [] n = "tostring" -> NToString(st.v) [] n = "tojson" -> NToJson(st.v)
+                      [] n = "fromjson" -> NFromJson(st.v) [] n = "explode" -> NExplode(st.v) [] n = "implode" -> NImplode(st.v)
+                      [] n = "to_entries" -> NToEntries(st.v) [] n = "from_entries" -> NFromEntries(st.v)
+                      [] n = "sort" -> NSort(st.v) [] n = "unique" -> NUnique(st.v)
+                      [] n = "min" -> NMinMaxBy(st.v, st.v, TRUE) [] n = "max" -> NMinMaxBy(st.v, st.v, FALSE)
+                      [] n = "reverse" -> NReverse(st.v))
+           [] ar = 1 /\ n \in Natives1 ->
+                 ApplyNative(args, st, env, LAMBDA vs :
+                    CASE n = "has" -> NHas(st.v, vs[1]) [] n = "split" -> NSplit(st.v, vs[1])
+                      [] n = "ltrimstr" -> NTrim(st.v, vs[1], TRUE) [] n = "rtrimstr" -> NTrim(st.v, vs[1], FALSE)
+                      [] n = "startswith" -> NStarts(st.v, vs[1], TRUE) [] n = "endswith" -> NStarts(st.v, vs[1], FALSE)
+                      [] n = "join" -> NJoin(st.v, vs[1]) [] n = "_sort_by" -> NSortBy(st.v, vs[1])
+                      [] n = "_group_by" -> NGroupBy(st.v, vs[1], FALSE) [] n = "_unique_by" -> NGroupBy(st.v, vs[1], TRUE)
+                      [] n = "_min_by" -> NMinMaxBy(st.v, vs[1], TRUE) [] n = "_max_by" -> NMinMaxBy(st.v, vs[1], FALSE))
+           [] OTHER -> <<Unm(st, "function outside the core")>>
+
+(********************************* top level ********************************)
+Outcome(o) == CASE o.k = "v" -> IF HasOpaque(o.s.v) THEN [k |-> "x", why |-> "outputs the text of a built-in error message"] ELSE [k |-> "v", v |-> o.s.v]
+                [] o.k = "e" -> IF o.u /\ HasOpaque(o.v) THEN [k |-> "x", why |-> "raises the text of a built-in error message"]
+                                ELSE [k |-> "e", u |-> o.u, v |-> IF o.u THEN o.v ELSE JNull]
+                [] o.k = "b" -> [k |-> "x", why |-> "break escapes"]
+                [] o.k = "x" -> [k |-> "x", why |-> o.why]
+Run(q, input, inputs, lit) ==
+    LET os == Eval(q, St0(input, inputs), Env0(lit))
+        outs == [i \in 1 .. Len(os) |-> Outcome(os[i])]
+        bad == {i \in 1 .. Len(outs) : outs[i].k = "x"} IN
+    IF bad # {} THEN [out |-> <<outs[CHOOSE i \in bad : \A j \in bad : i <= j]>>, side |-> <<>>, core |-> FALSE]
+    ELSE [out |-> outs, side |-> LastSt(os, St0(input, inputs)).side, core |-> TRUE]
+=============================================================================
